@@ -161,6 +161,13 @@ def annotate_fn(text, item: Fn, log, where):
         if anchor == "@entry":
             inserts.append((body_open + 1, "\n" + gt + "\n"))
             continue
+        mb = re.match(r"@loop:(\d+):before$", anchor)
+        if mb:
+            k = int(mb.group(1))
+            if k >= len(loops):
+                raise AnchorLost(f"{where}: loop #{k} not found for ghost anchor")
+            inserts.append((body_open + loops[k][0], "\n" + gt + "\n"))
+            continue
         ml = re.match(r"@loop:(\d+):body$", anchor)
         if ml:
             k = int(ml.group(1))
